@@ -301,8 +301,9 @@ fn gen_op(r: &mut Rng, doc: &Document, safe_only: bool) -> Option<Op> {
         0 => Op::NewId,
         1 | 2 => Op::Add(gen_obj(r, 0, &rp)),
         3 => {
-            // replace an existing object, or fill a free number below max_id
-            if !ids.is_empty() && r.chance(3, 4) { Op::Set(*r.pick(&ids), gen_obj(r, 0, &rp)) }
+            // replace an existing object, store above max_id, or fill a free number below max_id
+            if r.chance(1, 4) { Op::Set((doc.max_id.saturating_add(1 + r.below(6) as u32), if r.chance(1, 8) { 1 } else { 0 }), gen_obj(r, 0, &rp)) }
+            else if !ids.is_empty() && r.chance(3, 4) { Op::Set(*r.pick(&ids), gen_obj(r, 0, &rp)) }
             else if doc.max_id >= 1 {
                 // a free NUMBER (two live objects never share a number with different generations)
                 let n = 1 + r.below(doc.max_id as u64) as u32;
@@ -432,17 +433,22 @@ fn witnesses(c: &mut Ctx) {
         if let Ok((mid, x, id)) = res {
             c.corr(req, format!("ok unit | {}", show_doc(&mid)));
             c.corr(format!("step add i2 {}", show_doc(&mid)), format!("ok id {}_{} | {}", id.0, id.1, show_doc(&x)));
-            c.witness("F-C11-b", id == (6, 0) && x.objects.get(&(6, 0)) == Some(&Object::Integer(2)) && mid.max_id < 6,
-                "set_object((6,0), 1) on a document with max_id 5 leaves max_id at 5; the next add_object returns (6,0) and overwrites the object");
+            // fixed by f7b469f: reproduced = the defect is back
+            c.witness("F-C11-b", id == (6, 0) || x.objects.get(&(6, 0)) != Some(&Object::Integer(1)) || mid.max_id < 6,
+                &format!("set_object((6,0), 1) on a document with max_id 5: max_id afterwards {}; the next add_object returned {:?}; object (6,0) is now {:?}", mid.max_id, id, x.objects.get(&(6, 0))));
         }
     }
-    // F-C13-e / C11 domain: delete_pages with a cyclic Parent chain never returns
-    if let Some(_r) = c.case("witness_delete_pages_cycle", 0) {
+    // observation (malformed input, outside C11's quantifier over well-formed starting documents):
+    // delete_pages with a cyclic Parent chain never returns; the model reports `hang`
+    if let Some(_r) = c.case("observation_delete_pages_cycle", 0) {
         let out = crate::iso::run_isolated("C11", &["cycle".to_string()], 3000, 512);
-        let hung = out.get(0).map(|s| s == "timeout").unwrap_or(false);
         let d = cyclic_parent_doc();
         c.corr(format!("step delpages 1 1 {}", show_doc(&d)), "err hang".into());
-        c.witness("F-C11-c", hung, &format!("delete_pages(&[1]) on a page tree whose root is its own Parent: worker outcome {:?}", out.get(0)));
+        match out.get(0).map(|s| s.as_str()) {
+            Some("timeout") => c.count("observation.delete_pages_cyclic_parent_hangs"),
+            Some("returned") => c.count("observation.delete_pages_cyclic_parent_returns"),
+            _ => c.count("observation.delete_pages_cyclic_parent_other"),
+        }
     }
 }
 
